@@ -112,7 +112,12 @@ def brief(c):
                                   "final", "recv", "pend", "finished")} | {"schedule": [s["tid"] for s in (c.get("steps") or [])]}
 
 
+SIG_RECYCLE = "C20:event-loop-recycles-recvBuf-while-OnData-is-reading"
+
+
 def signature(c, msg):
+    if msg.startswith("zero-copy:"):
+        return SIG_RECYCLE
     if c.get("setter"):
         if msg.startswith("no-strand"):
             return SIG_LATE
